@@ -23,7 +23,9 @@ RULE = (
     "wrap_isolation_threshold's result, comparisons controlling only align_reset, and inside veryl_pretty anything except the text "
     "argument of a push_str; newline_style -> newline_str(), the carrier fields, the text argument of push/str calls, the replacement "
     "argument of str::replace(\"\\n\", _), split separators, and comparisons controlling only such replacements. Any other consumer is "
-    "a violation naming the function and the consumer."
+    "a violation naming the function and the consumer. R3 (vertical_align's carrier is the extra Mode::Align walk) in every Emitter function, "
+    "code reachable only over the mode == Align edge of a test of self.mode writes no Emitter field and changes no Emitter collection outside "
+    "the alignment data and the token-walk cursors."
 )
 
 CRATES = None
@@ -245,8 +247,110 @@ def run(world, tier, info, only=None):
     for opt, rs in analysed.items():
         ck.floor("R1", "functions reading %s or a carrier" % opt, len(rs), 1)
     ck.floor("R2", "consumers examined", n_sinks, 20)
-    ck.analysed = {"readers": analysed, "consumers": n_sinks}
+    n_reg = align_pass_isolation(ck, w)
+    ck.analysed = {"readers": analysed, "consumers": n_sinks, "align_only_regions": n_reg}
     return ck.finish(info)
+
+
+# ---------------- R3 the alignment pass leaves nothing behind but alignment data -----------------------------------------------------
+ALIGN_OK = {
+    "aligner": "the alignment tables are the pass's product",
+    "duplicated_index": "position counter restarted before the build pass (Emitter::emit)",
+    "src_line": "cursor of the token walk, restarted by the build pass",
+    "in_start_token": "cursor of the token walk",
+    "consumed_next_newline": "cursor of the token walk",
+    "last_token": "cursor of the token walk",
+}
+MUTATE = re.compile(r"::(insert|push|push_back|push_front|extend|append|clear|pop|remove|truncate|retain|drain|entry|push_str)$|^core::mem::(take|replace|swap)$")
+
+
+def _mode_const(w, p, g, op):
+    d = g.describe(op, 6)
+    if d and d[0] == "proj" and isinstance(d[1], tuple) and d[1][0] == "promoted":
+        pr = w.promoted(d[1][1], d[1][2])
+        for b in (pr or {}).get("blocks", []):
+            for st in b["s"]:
+                if st[0] == "=" and st[2][0] == "agg" and isinstance(st[2][1], dict) and (st[2][1].get("adt") or "").endswith("emitter::Mode"):
+                    return st[2][1].get("variant")
+    return None
+
+
+def align_pass_isolation(ck, w):
+    """Emitter::emit walks the tree twice: once in Mode::Align, only if [format] vertical_align is set, then in Mode::Build. Whatever the
+    Align walk alone does must therefore stay inside the alignment data: a field of the Emitter written (or a collection of it changed)
+    only under mode == Align would make the emitted text depend on vertical_align."""
+    n_reg = 0
+    for p, sm in sorted(w.fns.items()):
+        if "veryl_emitter::emitter" not in p or sm.get("alias_of") or "fmt::Debug" in p or "::tests::" in p:
+            continue
+        if sm["nblocks"] < 3:
+            continue
+        g = Fn(w.mir(p))
+        regions = []
+        for bb, t in flow.enum_switches(g, r"emitter::Mode$"):
+            listed = [vn for v, tgt, vn in t["vals"]]
+            al = [tgt for v, tgt, vn in t["vals"] if vn == "Align"] or ([t["else"]] if "Build" in listed else [])
+            bu = [tgt for v, tgt, vn in t["vals"] if vn == "Build"] or ([t["else"]] if "Align" in listed else [])
+            regions.append((bb, al, bu))
+        for bi, t in g.calls(r"PartialEq.*::(eq|ne)$"):
+            if "Mode" not in (t.get("self") or "") + (t.get("callee") or ""):
+                continue
+            vs = [_mode_const(w, p, g, a) for a in t["args"]]
+            v = [x for x in vs if x]
+            sw = g.blocks[t["to"]]["t"]
+            if len(v) != 1 or sw["t"] != "sw" or len(sw["vals"]) != 1 or sw["vals"][0][0] != "0":
+                ck.ob("R3", "align-pass/mode-test:%s" % _sh(p), None, site(sm, t["l"]), "a comparison of self.mode is not branched on directly; cannot delimit the Align-only code")
+                continue
+            eq_edge, ne_edge = sw["else"], sw["vals"][0][1]
+            if t["callee"].endswith("::ne"):
+                eq_edge, ne_edge = ne_edge, eq_edge
+            al, bu = ([eq_edge], [ne_edge]) if v[0] == "Align" else ([ne_edge], [eq_edge])
+            regions.append((t["to"], al, bu))
+        for bb, al, bu in regions:
+            if not al:
+                continue
+            ra = set().union(*[g.reach_from(a, avoid=[bb]) for a in al])
+            rb = set().union(*[g.reach_from(b, avoid=[bb]) for b in bu]) if bu else set()
+            only = ra - rb
+            n_reg += 1
+            bad = []
+            # a scoped flag the function sets at entry and clears on every exit is also cleared on its Align-only early exit:
+            # the same (field, constant) written outside the region as well is not something only the alignment pass does
+            outside = set()
+            for b2, blk2 in enumerate(g.blocks):
+                if b2 in only or blk2.get("cu"):
+                    continue
+                for st in blk2["s"]:
+                    if st[0] == "=" and st[2][0] == "use" and st[2][1][0] == "k":
+                        flds = [q for q in st[1][1] if isinstance(q, list) and q[0] == "f"]
+                        if flds and st[1][0] == 1:
+                            outside.add((flds[0][2], repr(st[2][1][1].get("int", st[2][1][1].get("v")))))
+            for b in sorted(only):
+                blk = g.blocks[b]
+                if blk.get("cu"):
+                    continue
+                for st in blk["s"]:
+                    if st[0] != "=":
+                        continue
+                    flds = [q for q in st[1][1] if isinstance(q, list) and q[0] == "f"]
+                    if flds and st[1][0] == 1 and flds[0][3].endswith("emitter::Emitter") and flds[0][2] not in ALIGN_OK:
+                        if st[2][0] == "use" and st[2][1][0] == "k" and (flds[0][2], repr(st[2][1][1].get("int", st[2][1][1].get("v")))) in outside:
+                            continue
+                        bad.append("self.%s written (line %s)" % (flds[0][2], st[3]))
+                t = blk["t"]
+                if t["t"] == "call" and MUTATE.search(t.get("callee") or "") and t["args"] and t["args"][0][0] != "k":
+                    r, pth = flow.access_path(g, t["args"][0])
+                    if r == ("arg", 1) and pth and pth[0] not in ALIGN_OK:
+                        bad.append("self.%s changed by %s (line %s)" % (pth[0], t["callee"].split("::")[-1], t["l"]))
+            ck.ob("R3", "align-pass-isolated:%s@%d" % (_sh(p), len([1 for x in regions if x[0] <= bb])), not bad, site(sm),
+                  "code that runs only in the alignment pass touches alignment data only" if not bad else
+                  "state the build pass reads is changed only when the alignment pass runs (i.e. only with vertical_align = true): %s" % bad[:3])
+    ck.floor("R3", "Align-only regions in the emitter", n_reg, 20)
+    return n_reg
+
+
+def _sh(p):
+    return re.sub(r"^<veryl_emitter::emitter::Emitter as veryl_parser::veryl_walker::VerylWalker>::", "walker::", p).replace("veryl_emitter::emitter::Emitter::", "")
 
 
 def _nth_switch(f, t, bb):
